@@ -29,7 +29,9 @@ ASSUMPTIONS = [
 SIGMA_P = ["~", "/", "0", "1", "+", "-", " ", "#", "a", "é", "_", "１"]
 LOOK = ["01", "00", "-0", "-1", "+1", "1_0", "1 ", "1e1", "1.0", "10", "12", "~0", "~1", "~01", "~2", "#a", "#0", "~a",
         "a/b", "a~b", "%41", "%2F", "𝄞", "null", "true", "0x1", "٣", "1 0", "a b",
-        "9007199254740991", "-9007199254740991", "1\n", "0\n", "-7\n", "a\n", "a\t", "\na"]
+        "9007199254740991", "-9007199254740991", "1\n", "0\n", "-7\n", "a\n", "a\t", "\na",
+        # a token that starts with U+FEFF (a byte-order mark only at the start of a decoded *text*, never inside a token)
+        "\ufeffa", "\ufeff", "a\ufeff", "\ufffe"]
 
 
 def tokens(n):
@@ -220,12 +222,47 @@ def run_shard(shard, acc):
             if got != want:
                 acc.violation("PAIRS", "is_relative_to", {"left": list(ka), "right": list(kb), "_kind": "is_relative_to"}, expected=want, observed=got)
         acc.count("pairs", 1)
+        _bigtok(acc)
     elif kind == "H":
         _, si, li, depth = shard
         _chains(si, [li], depth, acc)
     elif kind == "H2":
         _, si, a, b, depth = shard
         _chains(si, [a, b], depth, acc)
+
+
+def _bigtok(acc, only=None):
+    from jsonpath import JSONPointer
+
+    # a digits-only token beyond the index limit can be held by a pointer built from a token list (parsing such a
+    # text is the documented construction-time error): join / parent / is_relative_to / printing work on tokens
+    for big in ("9007199254740992", "-9007199254740992", "123456789012345678901234567890"):
+        for pre, post in (([], []), (["a"], []), ([], ["a"]), (["a"], ["b", "0"])):
+            toks = pre + [big] + post
+            if only is not None and toks != only:
+                continue
+            bad = None
+            try:
+                p0 = JSONPointer.from_parts(list(toks), unicode_escape=False)
+                if str(p0) != rptr.encode(toks):
+                    bad = ("bigtok.print", rptr.encode(toks), str(p0))
+                else:
+                    par = p0.parent()
+                    want = rptr.encode(toks[:-1])
+                    if str(par) != want or not (par == JSONPointer.from_parts(toks[:-1], unicode_escape=False)):
+                        bad = ("bigtok.parent", want, str(par))
+                    elif toks[:-1] and not p0.is_relative_to(par):
+                        bad = ("bigtok.is_relative_to", True, False)
+                    else:
+                        j = p0 / "x"
+                        j2 = p0.join("x")
+                        if str(j) != rptr.encode(toks + ["x"]) or str(j2) != str(j) or str(j.parent()) != str(p0):
+                            bad = ("bigtok.join", rptr.encode(toks + ["x"]), "%s / parent %s" % (j, j.parent()))
+            except Exception as e:  # noqa: BLE001
+                bad = ("bigtok.exception", "no exception", "%s: %s" % (type(e).__name__, e))
+            acc.case("PAIRS", ("bigtok", tuple(toks)), outcome=rptr.encode(toks), nontrivial=True)
+            if bad:
+                acc.violation("PAIRS", bad[0], {"left": list(toks), "right": list(toks), "_kind": "bigtok"}, expected=bad[1], observed=bad[2])
 
 
 REL_TOKS = ["a", "ab", "1", "10", "", "~", "~0", "/", "a b", "0", "01", "-"]
@@ -372,6 +409,9 @@ def check_case(sub, case, acc):
             JSONPointer(rptr.encode(ka)), JSONPointer.from_parts(list(kb)), JSONPointer(rptr.encode(kb))
         except Exception as e:  # noqa: BLE001
             acc.violation("PAIRS", "refused.parse", case, expected="a pointer", observed="%s: %s" % (type(e).__name__, e))
+            return
+        if v_kind(case) == "bigtok":
+            _bigtok(acc, only=list(ka))
             return
         if v_kind(case) == "is_relative_to":
             pa, pb = JSONPointer(rptr.encode(ka)), JSONPointer(rptr.encode(kb))
